@@ -17,7 +17,9 @@ type SynGen struct {
 
 func (g *SynGen) pick(n int, w string) int { return rapid.IntRange(0, n-1).Draw(g.T, w) }
 
-var synNames = []string{"A", "B", "C", "甲", "乙", "丙", "X1", "Zs", "変数", "αβ", "값", "Name_2", "总价", "数量-1", "R/W", "星标*", "$x", "_h"}
+var synNames = []string{"A", "B", "C", "甲", "乙", "丙", "X1", "Zs", "変数", "αβ", "값", "Name_2", "总价", "数量-1", "R/W", "星标*", "$x", "_h",
+	// names that begin like the head of a comment (注 / 注+digits, without the colon)
+	"注册", "注意事项", "注1号", "备注"}
 var synTexts = []string{"", "a", "文本", "hello world", "你好，世界", "😊", "{}-{#.2}", "含“引号”", "a`b", "line1\nline2", "「」", "//不是注释", "注：也不是",
 	// texts of many lines (every count of line breaks from 2 to 17 occurs among the suffixes used)
 	"一\n二\n三", "1\n2\n3\n4\n5\n6\n7\n8\n9", "a\n\n\n\nb\n\n\n\nc", "甲\r\n乙\n丙\n丁\n戊\n己\n庚\n辛\n壬\n癸\n子\n丑\n寅\n卯\n辰\n巳\n午\n未"}
